@@ -43,9 +43,11 @@ func ProfileFor(prop string) Profile {
 		w["cterm"], w["cancel"], w["drain+"], w["gate"], w["csync"] = 0, 2, 1, 0, 1
 	case "C05":
 		p.Routing = true
+		p.LongAdvances = true
 		w["drain+"], w["drain-"], w["term"], w["killq"], w["adv"] = 6, 7, 3, 3, 12
 	case "C06":
 		p.LeakPhase = true
+		p.LongAdvances = true
 		p.RetryHeavy = true
 		w["adv"], w["cancel"], w["csync"], w["term"], w["cterm"] = 16, 9, 5, 3, 2
 	case "C07":
